@@ -79,6 +79,29 @@ fn clause_pool(rng: &mut Rng, corpus: &Corpus, n: usize) -> Vec<String> {
             pool.push(f.to_string());
         }
     }
+    // the same shape with other words: a clause and copies in which one word is replaced by another word of the same
+    // length (every token keeps its span, most keep their metadata; only the letters differ), and split compounds
+    for f in ["The web cam works", "The web cap works", "The web cat works", "a note book here", "a note door here", "a note boot here", "my lap top died", "my lap ton died"] {
+        if rng.chance(1, 2) {
+            pool.push(f.to_string());
+        }
+    }
+    for _ in 0..4 {
+        let base = rng.pick(&pool).clone();
+        let words: Vec<&str> = base.split(' ').collect();
+        if words.len() < 2 {
+            continue;
+        }
+        let at = rng.below(words.len());
+        let len = words[at].chars().count();
+        let same: Vec<&String> = corpus.vocab.iter().filter(|w| w.chars().count() == len && w.as_str() != words[at]).collect();
+        if same.is_empty() {
+            continue;
+        }
+        let mut w2: Vec<String> = words.iter().map(|w| w.to_string()).collect();
+        w2[at] = (*rng.pick(&same)).clone();
+        pool.push(w2.join(" "));
+    }
     for f in ["ie, the usual", "eg, this one", "ie", "etc", "vs the rest", "al fresco", "st street", "am here"] {
         pool.push(f.to_string());
     }
